@@ -31,6 +31,7 @@ RenameOps == { [op |-> "rename", flag |-> f] : f \in {"", "NOREPLACE", "EXCHANGE
 const_Ops == CreateOps \cup CFOps \cup RemoveOps \cup RenameOps
 const_OpsMkRm == { [op |-> "mkdir_all"], [op |-> "remove_all"] }
 TMk == [name |-> "mk", maxlen |-> 3, paths2 |-> {<<"">>}, nodes |-> <<
-    D(5, R, "a"), D(6, 5, "sub"), F(7, R, "f"), L(8, R, "la", <<"a">>), L(9, R, "dang", <<"nonexist">>), L(10, 5, "esc", <<"..", "..", "out">>), L(11, 6, "up", <<"..">>) >>]
+    D(5, R, "a"), D(6, 5, "sub"), F(7, R, "f"), L(8, R, "la", <<"a">>), L(9, R, "dang", <<"nonexist">>), L(10, 5, "esc", <<"..", "..", "out">>), L(11, 6, "up", <<"..">>),
+    L(12, R, "ld1", <<".", "a">>), L(13, R, "ld2", <<"a", ".", "sub">>), L(14, R, "ld3", <<"a", ".">>) >>]
 const_TreesMk == <<TMk>>
 =============================================================================
